@@ -526,6 +526,9 @@ func (in *Interp) callFunction(fn *ssa.Function, args []Value) Value {
 var ambientPkgs = map[string]bool{"os": true, "syscall": true, "os/user": true, "os/exec": true, "net": true, "io/fs": true, "os/signal": true,
 	"net/http": true, "internal/poll": true, "internal/syscall/unix": true, "path/filepath.EvalSymlinks": true}
 
+// ambientGlobals: package-level variables that carry process state (C19).
+var ambientGlobals = map[string]bool{"time.Local": true, "os.Args": true, "os.Stdin": true, "os.Stdout": true, "os.Stderr": true}
+
 var hstubCache sync.Map // *ssa.Program -> map[string]*ssa.Function
 
 // hstub: a harness may replace a function of the package under test by defining
@@ -639,6 +642,12 @@ func (in *Interp) get(fr *frame, v ssa.Value) Value {
 	case *ssa.Const:
 		return in.constVal(v)
 	case *ssa.Global:
+		if in.AmbientOn && v.Pkg != nil && ambientGlobals[v.Pkg.Pkg.Path()+"."+v.Name()] {
+			if m := in.Ctx.Model(); m != nil {
+				panic(&Violation{Kind: "ambient", Msg: "use of ambient process state: " + v.Pkg.Pkg.Path() + "." + v.Name() + " from " + in.where(), Model: m,
+					Replay: in.Ctx.ReplayValues(m), Labels: append([]string(nil), in.Labels...), Where: in.where()})
+			}
+		}
 		return in.global(v)
 	case *ssa.Function:
 		return &Closure{Fn: v}
